@@ -61,6 +61,10 @@ PROPS = {
 }
 
 TICKS = (1, 1_000_000_007, 999_999_999)
+# (t0 nanoseconds, tick): grids on which occurrences land exactly on whole seconds after sub-second ones, or cross a
+# second boundary nanosecond by nanosecond
+GRIDS = ((0, 1), (0, 1_000_000_007), (0, 999_999_999), (0, 250_000_000), (0, 500_000_000), (0, 1_500_000_000),
+         (500_000_000, 500_000_000), (999_999_995, 1), (750_000_000, 250_000_000), (0, 1_000_000_000))
 
 
 def describe(rej):
@@ -140,8 +144,9 @@ def run(prop, tier, seed):
             if lag_choices:
                 lags = [rng.choice(lag_choices) if rng.random() < 0.25 else 0 for _ in range(3 * length + 2)]
                 lags[0] = 0
-            runs.append(dict(id=i + 1, threads=rng.choice((1, 1, 2, 4)), tick_ns=rng.choice(TICKS),
-                             t0_secs=rng.choice((0, 1_600_000_000)), lags=lags, cmds=cmds))
+            t0n, tick = rng.choice(GRIDS)
+            runs.append(dict(id=i + 1, threads=rng.choice((1, 1, 2, 4)), tick_ns=tick, t0_nanos=t0n,
+                             t0_secs=rng.choice((0, 41, 1_600_000_000)), lags=lags, cmds=cmds))
         validate_runs(chk, prop, b, runs, "random-driver", wd, f"b3_{bn}")
     # 3b. C01: volume - a scheduler queue with hundreds of pending actions (one-shot, keyed, periodic, cancelled) stepped
     #     through to the end, on one and on several threads
